@@ -589,6 +589,23 @@ func genBundle(c *ctx, cached bool) {
 			validateAll(s)
 			rec(coqw.App("BHeader", coqw.N(s)), w.headerObs(b))
 		}
+		if !cached && r.P(1, 6) {
+			// ONE token must clear all the accesses of a call: two verified tokens for different organisations, a request
+			// about each -- every request is cleared by some token, no token clears both
+			s := parseHdr(perms[0] + "," + perms[7])
+			b := w.slots[s]
+			w.recordDirect(b)
+			sets, _ := b.Verify(context.Background(), w.resolver())
+			var ids []uint64
+			for _, set := range sets {
+				ids = append(ids, w.csID(set))
+			}
+			rec(coqw.App("BVerify", coqw.N(s)), zl(ids))
+			validateAll(s)
+			for _, pair := range [][]uint64{{0, 2}, {2, 0}, {0, 1}, {2, 2}} {
+				rec(coqw.App("BValidateMany", coqw.N(s), coqw.ListOf(pair, coqw.N)), []int64{b2i64x(b.Validate(w.reqs[pair[0]], w.reqs[pair[1]]) == nil)})
+			}
+		}
 		if cached && smallCache == false && r.P(1, 4) {
 			// two permission tokens that share a nonce (a token and its attenuation; a token and a forgery of it) verified in
 			// ONE call, then each presented alone: every result belongs to its own token
